@@ -305,12 +305,24 @@ func main() {
 	for i := 0; i < nsh; i++ {
 		b, err := os.ReadFile(filepath.Join(outDir, fmt.Sprintf("shard-%d.json", i)))
 		if err != nil {
-			infra = append(infra, fmt.Sprintf("shard %d wrote no statistics (exit %d)", i, results[i].code))
 			tail := results[i].out
 			if len(tail) > 6000 {
 				tail = tail[len(tail)-6000:]
 			}
 			fmt.Fprintf(os.Stderr, "---- shard %d output tail ----\n%s\n", i, tail)
+			if crashInLibrary(results[i].out) {
+				// the process died from a panic / fatal error raised inside one of the
+				// library's own goroutines: that cannot be recovered by the harness
+				// and is a failure of the code under test, not of the infrastructure
+				dir := filepath.Join(verifDir, "replays", id)
+				_ = os.MkdirAll(dir, 0o755)
+				logf := filepath.Join(dir, fmt.Sprintf("crash-%s-seed%d-shard%d.log", tier, seed, i))
+				_ = os.WriteFile(logf, results[i].out, 0o644)
+				merged.Violations = append(merged.Violations, violation{Check: "process-crash", Replay: logf, Error: "the test process died from a panic or fatal error in a tcell goroutine (see the log)"})
+				merged.Evaluations++
+				continue
+			}
+			infra = append(infra, fmt.Sprintf("shard %d wrote no statistics (exit %d)", i, results[i].code))
 			continue
 		}
 		var s stats
@@ -440,6 +452,34 @@ func main() {
 		os.Exit(2)
 	}
 	os.Exit(0)
+}
+
+// crashInLibrary: did the process die from a panic / fatal error whose
+// panicking goroutine is inside tcell (and was not started by the harness's
+// recover-protected wrappers)?
+func crashInLibrary(out []byte) bool {
+	s := string(out)
+	i := strings.Index(s, "\npanic: ")
+	if i < 0 {
+		i = strings.Index(s, "\nfatal error: ")
+	}
+	if i < 0 {
+		return false
+	}
+	if strings.Contains(s[i:], "test timed out") {
+		return false
+	}
+	// the first goroutine block after the panic line is the panicking one
+	rest := s[i:]
+	j := strings.Index(rest, "\ngoroutine ")
+	if j < 0 {
+		return false
+	}
+	block := rest[j+1:]
+	if k := strings.Index(block, "\n\n"); k >= 0 {
+		block = block[:k]
+	}
+	return strings.Contains(block, "github.com/gdamore/tcell/v2") && !strings.Contains(block, "verifharness/")
 }
 
 func loadFindings() []finding {
